@@ -39,6 +39,9 @@ type Config struct {
 	MapOrderRev bool
 	NoMerge     bool
 	MergeFuncs  map[string]bool
+	OneShotAsserts bool // decide assertions with fresh non-incremental solver processes (z3 and cvc5 side by side)
+	MonotoneRounding bool // rerr mode: add p<=q => fl(p)<=fl(q) for all pairs of rounded operations
+	UFTables    bool // abstract large tables at symbolic indices as uninterpreted functions
 }
 
 type frame struct {
@@ -95,7 +98,6 @@ type Exec struct {
 	curGo      int
 	nGo        int
 	unknowns   int
-	sideConds  []*Term
 	rerrVars   int
 	userData   map[string]interface{}
 
@@ -110,6 +112,10 @@ type Exec struct {
 	mergedCalls int
 	ifConverted int
 	specCond    *Term
+	roundings   []roundingSite
+	ufTables    map[*Value]*ufTable
+	ufOrder     []*ufTable
+	ufFacts     []*Term
 	model       Model
 	relVars     []*Term
 	relSeen     map[int]bool
@@ -281,6 +287,18 @@ func (e *Exec) Decide(c *Term) bool {
 		}
 		return d.Taken
 	}
+	if e.merging > 0 {
+		// inside a merged call both sides are explored without feasibility
+		// queries: an infeasible side only contributes an ite arm whose
+		// condition is false under the path condition
+		alt := make([]Decision, len(e.trace), len(e.trace)+1)
+		copy(alt, e.trace)
+		alt = append(alt, Decision{Taken: false})
+		e.forks = append(e.forks, alt)
+		e.trace = append(e.trace, Decision{Taken: true})
+		e.assume(c)
+		return true
+	}
 	// concolic policy: with a valid model, follow the side it satisfies (the
 	// model stays valid) and ask the solver only about the other side
 	if e.model != nil {
@@ -351,15 +369,35 @@ func (e *Exec) Decide(c *Term) bool {
 // The path condition is passed as assumptions (check-sat-assuming): nothing is
 // ever asserted or popped, so the solver keeps its internalised terms.
 func (e *Exec) check(extra ...*Term) Result {
-	lits := make([]*Term, 0, len(e.pcs)+len(extra))
-	lits = append(lits, e.pcs...)
-	lits = append(lits, extra...)
-	return e.S.CheckWith(lits...)
+	for round := 0; ; round++ {
+		lits := make([]*Term, 0, len(e.pcs)+len(extra)+len(e.ufFacts))
+		lits = append(lits, e.pcs...)
+		lits = append(lits, e.ufFacts...)
+		lits = append(lits, extra...)
+		r := e.S.CheckWith(lits...)
+		if r != Sat || len(e.ufOrder) == 0 {
+			return r
+		}
+		added, ok := e.ufRefine(lits)
+		if !ok {
+			return Unknown
+		}
+		if !added {
+			return Sat
+		}
+		if round > 200 {
+			return Unknown
+		}
+	}
 }
 
 func (e *Exec) checkVals(ts []*Term, extra ...*Term) (Result, []ModelValue) {
-	lits := make([]*Term, 0, len(e.pcs)+len(extra))
+	if r := e.check(extra...); r != Sat {
+		return r, nil
+	}
+	lits := make([]*Term, 0, len(e.pcs)+len(extra)+len(e.ufFacts))
 	lits = append(lits, e.pcs...)
+	lits = append(lits, e.ufFacts...)
 	lits = append(lits, extra...)
 	return e.S.CheckModel(ts, lits...)
 }
@@ -1062,6 +1100,9 @@ func (e *Exec) elemPtr(cells []Value, idx *Term, n *Term, instr ssa.Instruction)
 	}
 	if scalar && n.IsConst() && int(n.C) <= symIndexMax && int(n.C) <= len(cells) {
 		return &SymPtr{A: cells[:n.C], Idx: idx}
+	}
+	if scalar && e.Cfg.UFTables && n.IsConst() && int(n.C) <= len(cells) && int(n.C) >= 256 {
+		return &UFPtr{Tbl: e.ufTableFor(cells[:n.C]), Idx: idx}
 	}
 	i := int(e.Concretize(idx, "array index at "+e.posOf(instr)))
 	if i >= len(cells) {
